@@ -77,7 +77,8 @@ fn attrib<'a, 'b>(node: roxmltree::Node<'a, 'b>, label: &str) -> Option<roxmltre
             continue;
         };
         if s.tag_name().name() == "string" && char_data(s).as_deref() == Some(label) {
-            return entry.last_element_child();
+            // The value is the last element of the entry, unless the key is all there is
+            return entry.last_element_child().filter(|value| *value != s);
         }
     }
     None
